@@ -36,10 +36,11 @@ enum { O_PUT, O_GET, O_REMOVE, O_CLEAR, O_WALK,                       /* maps */
        O_FINDMIN, O_FINDMAX, O_NEAREST,                                  /* tree only: copying ordered lookups */
        O_ADDAT, O_GETAT, O_POPAT,                                         /* list, vector: position = key */
        O_GETMULTI,                                                        /* list table without the unique option */
+       O_REVERSE, O_REMOVEAT, O_SETAT,                                    /* list, vector (setat: vector only): reverse(), removeat(position), setat(position, value) */
        O_NEXT1, O_NEXT1ANY,                                               /* one stand-alone getnext(copy) on a fresh cursor, NOT under the caller's lock: named (list tables) / unnamed (tree: smallest key; multi list table: first entry) */
        NOPS };
 static const char *ONAME[NOPS] = {"put", "get", "remove", "clear", "locked-walk", "addfirst", "addlast", "popfirst", "poplast", "getfirst", "getlast", "toarray", "tostring", "clear",
-                                  "find_min", "find_max", "find_nearest", "addat", "getat", "popat", "getmulti", "getnext-first", "getnext-first-any"};
+                                  "find_min", "find_max", "find_nearest", "addat", "getat", "popat", "getmulti", "reverse", "removeat", "setat", "getnext-first", "getnext-first-any"};
 static bool is_add(int op) { return op == O_ADDFIRST || op == O_ADDLAST || op == O_ADDAT; }
 static bool is_pop(int op) { return op == O_POPFIRST || op == O_POPLAST || op == O_POPAT; }
 static bool is_seqget(int op) { return op == O_GETFIRST || op == O_GETLAST || op == O_GETAT || op == O_NEXT1; }
@@ -149,6 +150,8 @@ static void do_op(ctx_t *c, const opspec_t *s, opres_t *r) {
         case O_GETLAST: d = l->getlast(l, &sz, true); break;
         case O_SEQCLEAR: l->clear(l); r->ok = 1; break;
         case O_NEXT1: { qlist_obj_t o; memset(&o, 0, sizeof o); if (l->getnext(l, &o, true)) { d = o.data; sz = o.size; } break; }
+        case O_REVERSE: l->reverse(l); r->ok = 1; break;
+        case O_REMOVEAT: r->ok = l->removeat(l, s->key); break;
         case O_ADDAT: r->ok = l->addat(l, s->key, &v, 8); break;
         case O_GETAT: d = l->getat(l, s->key, &sz, true); break;
         case O_POPAT: d = l->popat(l, s->key, &sz); break;
@@ -176,6 +179,9 @@ static void do_op(ctx_t *c, const opspec_t *s, opres_t *r) {
         case O_GETLAST: d = vv->getlast(vv, true); break;
         case O_SEQCLEAR: vv->clear(vv); r->ok = 1; break;
         case O_NEXT1: { qvector_obj_t o; memset(&o, 0, sizeof o); if (vv->getnext(vv, &o, true)) d = o.data; break; }
+        case O_REVERSE: vv->reverse(vv); r->ok = 1; break;
+        case O_REMOVEAT: r->ok = vv->removeat(vv, s->key); break;
+        case O_SETAT: r->ok = vv->setat(vv, s->key, &v); break;
         case O_ADDAT: r->ok = vv->addat(vv, s->key, &v); break;
         case O_GETAT: d = vv->getat(vv, s->key, true); break;
         case O_POPAT: d = vv->popat(vv, s->key); break;
@@ -236,6 +242,9 @@ static bool model_apply(int kind, model_t *m, const hop_t *h) {
     case O_GETFIRST: case O_NEXT1: if (m->n == 0) return !r->ok; return r->ok && r->val == m->seq[0];
     case O_GETLAST: if (m->n == 0) return !r->ok; return r->ok && r->val == m->seq[m->n - 1];
     case O_SEQCLEAR: m->n = 0; return true;
+    case O_REVERSE: for (int i = 0; i < m->n / 2; i++) { uint64_t t = m->seq[i]; m->seq[i] = m->seq[m->n - 1 - i]; m->seq[m->n - 1 - i] = t; } return true;
+    case O_REMOVEAT: if (s->key >= m->n) return !r->ok; seq_del(m, s->key); return r->ok == 1;
+    case O_SETAT: if (s->key >= m->n) return !r->ok; m->seq[s->key] = s->val; return r->ok == 1;
     case O_ADDAT: if (s->key > m->n) return !r->ok; seq_ins(m, s->key, s->val); return r->ok == 1;
     case O_GETAT: if (s->key >= m->n) return !r->ok; return r->ok && r->val == m->seq[s->key];
     case O_POPAT: if (s->key >= m->n) return !r->ok; { uint64_t v = seq_del(m, s->key); return r->ok && r->val == v; }
@@ -282,8 +291,8 @@ static int linearizable(int kind, hop_t *H, int n, const model_t *init, int *ord
 }
 static void describe(char *b, size_t bs, const hop_t *h) {
     int n = snprintf(b, bs, "T%d %s", h->thread, ONAME[h->s.op]);
-    if (h->s.op <= O_REMOVE || h->s.op == O_NEAREST || h->s.op == O_GETMULTI) n += snprintf(b + n, bs - (size_t)n, "(k%d", h->s.key); else if (h->s.op == O_NEXT1) n += snprintf(b + n, bs - (size_t)n, "(%d", h->s.key); else if (h->s.op >= O_ADDAT && h->s.op <= O_POPAT) n += snprintf(b + n, bs - (size_t)n, "(@%d", h->s.key); else n += snprintf(b + n, bs - (size_t)n, "(");
-    if (h->s.op == O_PUT || is_add(h->s.op)) n += snprintf(b + n, bs - (size_t)n, "%sv%llx", h->s.op == O_PUT || h->s.op == O_ADDAT ? "," : "", (unsigned long long)h->s.val);
+    if (h->s.op <= O_REMOVE || h->s.op == O_NEAREST || h->s.op == O_GETMULTI) n += snprintf(b + n, bs - (size_t)n, "(k%d", h->s.key); else if (h->s.op == O_NEXT1) n += snprintf(b + n, bs - (size_t)n, "(%d", h->s.key); else if ((h->s.op >= O_ADDAT && h->s.op <= O_POPAT) || h->s.op == O_REMOVEAT || h->s.op == O_SETAT) n += snprintf(b + n, bs - (size_t)n, "(@%d", h->s.key); else n += snprintf(b + n, bs - (size_t)n, "(");
+    if (h->s.op == O_PUT || is_add(h->s.op) || h->s.op == O_SETAT) n += snprintf(b + n, bs - (size_t)n, "%sv%llx", h->s.op == O_PUT || h->s.op == O_ADDAT || h->s.op == O_SETAT ? "," : "", (unsigned long long)h->s.val);
     n += snprintf(b + n, bs - (size_t)n, ") -> ");
     if (h->s.op == O_WALK || h->s.op == O_TOARRAY || h->s.op == O_TOSTRING || h->s.op == O_GETMULTI) { n += snprintf(b + n, bs - (size_t)n, "["); for (int i = 0; i < h->r.n && n < (int)bs - 30; i++) n += snprintf(b + n, bs - (size_t)n, h->s.op == O_WALK ? "k%llu=v%llx " : "%.0llu" "v%llx ", h->s.op == O_WALK ? (unsigned long long)h->r.keys[i] : 0ULL, (unsigned long long)h->r.snap[i]); n += snprintf(b + n, bs - (size_t)n, "]"); }
     else if (h->r.ok && (h->s.op == O_FINDMIN || h->s.op == O_FINDMAX)) n += snprintf(b + n, bs - (size_t)n, "k%llu", (unsigned long long)h->r.keys[0]);
@@ -424,16 +433,16 @@ static const int MAPOPS[] = {O_PUT, O_PUT, O_GET, O_REMOVE, O_REMOVE, O_CLEAR, O
 static const int MULTIOPS[] = {O_PUT, O_PUT, O_PUT, O_GET, O_REMOVE, O_CLEAR, O_WALK, O_GETMULTI, O_GETMULTI, O_NEXT1, O_NEXT1ANY, O_REMOVE};
 static const int LTBLOPS[] = {O_PUT, O_PUT, O_GET, O_REMOVE, O_REMOVE, O_CLEAR, O_WALK, O_NEXT1, O_NEXT1, O_PUT};
 static const int TREEOPS[] = {O_PUT, O_PUT, O_GET, O_REMOVE, O_REMOVE, O_CLEAR, O_WALK, O_FINDMIN, O_FINDMAX, O_NEAREST, O_PUT, O_REMOVE};
-static const int SEQOPS_LIST[] = {O_ADDFIRST, O_ADDLAST, O_ADDLAST, O_POPFIRST, O_POPFIRST, O_POPLAST, O_GETFIRST, O_GETLAST, O_TOARRAY, O_TOSTRING, O_SEQCLEAR, O_ADDAT, O_GETAT, O_POPAT, O_NEXT1};
-static const int SEQOPS_VEC[] = {O_ADDFIRST, O_ADDLAST, O_ADDLAST, O_POPFIRST, O_POPFIRST, O_POPLAST, O_GETFIRST, O_GETLAST, O_TOARRAY, O_TOARRAY, O_SEQCLEAR, O_ADDAT, O_GETAT, O_POPAT, O_NEXT1};
+static const int SEQOPS_LIST[] = {O_ADDFIRST, O_ADDLAST, O_ADDLAST, O_POPFIRST, O_POPFIRST, O_POPLAST, O_GETFIRST, O_GETLAST, O_TOARRAY, O_TOSTRING, O_SEQCLEAR, O_ADDAT, O_GETAT, O_POPAT, O_NEXT1, O_REVERSE, O_REMOVEAT};
+static const int SEQOPS_VEC[] = {O_ADDFIRST, O_ADDLAST, O_ADDLAST, O_POPFIRST, O_POPFIRST, O_POPLAST, O_GETFIRST, O_GETLAST, O_TOARRAY, O_TOARRAY, O_SEQCLEAR, O_ADDAT, O_GETAT, O_POPAT, O_NEXT1, O_REVERSE, O_REMOVEAT, O_SETAT};
 static const int SEQOPS_QS[] = {O_ADDLAST, O_ADDLAST, O_POPFIRST, O_POPFIRST, O_GETFIRST, O_SEQCLEAR};
 static int pick_op(int kind, rng_t *r) {
     if (kind == K_TREE) return TREEOPS[rng_below(r, 12)];
     if (kind == K_LISTMULTI) return MULTIOPS[rng_below(r, 12)];
     if (kind == K_LISTTBL) return LTBLOPS[rng_below(r, 10)];
     if (is_map(kind)) return MAPOPS[rng_below(r, 7)];
-    if (kind == K_LIST) return SEQOPS_LIST[rng_below(r, 15)];
-    if (kind == K_VECTOR) return SEQOPS_VEC[rng_below(r, 15)];
+    if (kind == K_LIST) return SEQOPS_LIST[rng_below(r, 17)];
+    if (kind == K_VECTOR) return SEQOPS_VEC[rng_below(r, 18)];
     return SEQOPS_QS[rng_below(r, 6)];
 }
 static void gen_program(program_t *pg, long pid, rng_t *r) {
@@ -456,6 +465,8 @@ static void gen_program(program_t *pg, long pid, rng_t *r) {
     if (d == 3 && (pg->kind == K_LIST || pg->kind == K_VECTOR)) { pg->nthreads = 2; pg->prefill = 2; pg->nops[0] = 2; pg->nops[1] = 2; pg->ops[0][0].op = O_GETAT; pg->ops[0][0].key = 1; pg->ops[0][1].op = O_ADDAT; pg->ops[0][1].key = 1; pg->ops[1][0].op = O_POPAT; pg->ops[1][0].key = 0; pg->ops[1][1].op = O_POPAT; pg->ops[1][1].key = 1; }
     if (d == 0 && pg->kind == K_LISTMULTI) { pg->nthreads = 2; pg->prefill = 1; pg->nops[0] = 2; pg->nops[1] = 2; pg->ops[0][0].op = O_PUT; pg->ops[0][1].op = O_PUT; pg->ops[1][0].op = O_GETMULTI; pg->ops[1][1].op = O_GETMULTI; for (int t = 0; t < 2; t++) for (int i = 0; i < 2; i++) pg->ops[t][i].key = 0; }
     if (d == 2 && pg->kind == K_LISTMULTI) { pg->nthreads = 2; pg->prefill = 2; pg->nops[0] = 2; pg->nops[1] = 2; pg->ops[0][0].op = O_GETMULTI; pg->ops[0][1].op = O_GET; pg->ops[1][0].op = O_REMOVE; pg->ops[1][1].op = O_PUT; for (int t = 0; t < 2; t++) for (int i = 0; i < 2; i++) pg->ops[t][i].key = 0; }
+    if (d == 4 && (pg->kind == K_LIST || pg->kind == K_VECTOR)) { pg->nthreads = 2; pg->prefill = 3; pg->nops[0] = 1; pg->nops[1] = 2; pg->ops[0][0].op = O_REVERSE; pg->ops[1][0].op = O_POPLAST; pg->ops[1][1].op = O_ADDLAST; }
+    if (d == 5 && (pg->kind == K_LIST || pg->kind == K_VECTOR)) { pg->nthreads = 2; pg->prefill = 2; pg->nops[0] = 2; pg->nops[1] = 2; pg->ops[0][0].op = O_REMOVEAT; pg->ops[0][0].key = 1; pg->ops[0][1].op = pg->kind == K_VECTOR ? O_SETAT : O_GETAT; pg->ops[0][1].key = 0; pg->ops[1][0].op = O_POPFIRST; pg->ops[1][1].op = O_ADDFIRST; }
     if (d == 2 && pg->kind == K_LISTTBL) { pg->nthreads = 2; pg->prefill = 1; pg->nops[0] = 2; pg->nops[1] = 2; pg->ops[0][0].op = O_NEXT1; pg->ops[0][1].op = O_NEXT1; pg->ops[1][0].op = O_PUT; pg->ops[1][1].op = O_PUT; for (int t = 0; t < 2; t++) for (int i = 0; i < 2; i++) pg->ops[t][i].key = 0; }
     if (d == 3 && pg->kind == K_LISTMULTI) { pg->nthreads = 2; pg->prefill = 2; pg->nops[0] = 2; pg->nops[1] = 2; pg->ops[0][0].op = O_NEXT1ANY; pg->ops[0][1].op = O_NEXT1; pg->ops[1][0].op = O_REMOVE; pg->ops[1][1].op = O_PUT; for (int t = 0; t < 2; t++) for (int i = 0; i < 2; i++) pg->ops[t][i].key = 0; }
     if (d == 2 && pg->kind == K_LIST) { pg->nthreads = 2; pg->nops[0] = 1; pg->nops[1] = 2; pg->prefill = 1; pg->ops[0][0].op = O_TOSTRING; pg->ops[1][0].op = O_POPFIRST; pg->ops[1][1].op = O_ADDLAST; }
@@ -463,7 +474,7 @@ static void gen_program(program_t *pg, long pid, rng_t *r) {
 static void program_text(program_t *pg, char *b, size_t bs) {
     int n = snprintf(b, bs, "%s prefill=%d: ", KNAME[pg->kind], pg->prefill);
     for (int t = 0; t < pg->nthreads; t++) { n += snprintf(b + n, bs - (size_t)n, "%sT%d{", t ? " || " : "", t);
-        for (int i = 0; i < pg->nops[t]; i++) n += snprintf(b + n, bs - (size_t)n, "%s%s%s", i ? ";" : "", ONAME[pg->ops[t][i].op], (pg->ops[t][i].op <= O_REMOVE || pg->ops[t][i].op == O_NEAREST || pg->ops[t][i].op == O_GETMULTI || (pg->ops[t][i].op == O_NEXT1 && is_keyed(pg->kind))) ? (pg->ops[t][i].key ? "(k1)" : "(k0)") : (pg->ops[t][i].op >= O_ADDAT && pg->ops[t][i].op <= O_POPAT) ? (pg->ops[t][i].key ? "(@1)" : "(@0)") : "");
+        for (int i = 0; i < pg->nops[t]; i++) n += snprintf(b + n, bs - (size_t)n, "%s%s%s", i ? ";" : "", ONAME[pg->ops[t][i].op], (pg->ops[t][i].op <= O_REMOVE || pg->ops[t][i].op == O_NEAREST || pg->ops[t][i].op == O_GETMULTI || (pg->ops[t][i].op == O_NEXT1 && is_keyed(pg->kind))) ? (pg->ops[t][i].key ? "(k1)" : "(k0)") : ((pg->ops[t][i].op >= O_ADDAT && pg->ops[t][i].op <= O_POPAT) || pg->ops[t][i].op == O_REMOVEAT || pg->ops[t][i].op == O_SETAT) ? (pg->ops[t][i].key ? "(@1)" : "(@0)") : "");
         n += snprintf(b + n, bs - (size_t)n, "}"); }
 }
 
@@ -543,6 +554,9 @@ static void *stress_main(void *arg) {
         hop_t *h = &SH[id][i]; memset(h, 0, sizeof *h);
         h->thread = id; h->s.op = pick_op(S_KIND, &TR); h->s.key = (int)rng_below(&TR, S_KIND == K_TREE ? 3 : 2);
         if (h->s.op == O_WALK && rng_chance(&TR, 2, 3)) h->s.op = O_GET;
+#ifndef __SANITIZE_THREAD__
+        if (h->s.op == O_REMOVEAT || h->s.op == O_SETAT) h->s.op = O_GETAT;      /* they drop a value without returning it: the conservation rules of the plain stress run cannot account for that; controlled schedules and the TSan run keep them */
+#endif
         if ((h->s.op == O_CLEAR || h->s.op == O_SEQCLEAR) && rng_chance(&TR, 3, 4)) h->s.op = is_keyed(S_KIND) ? O_PUT : O_ADDLAST;
         h->s.val = idval((uint64_t)(id + 1) * 100000 + (uint64_t)i + 1);
         h->inv = stamp();
